@@ -22,3 +22,54 @@ def implies(a, b):
 
 
 NATIVE = {"is_digits": is_digits, "be4_value": be4_value, "be4": be4, "implies": implies}
+
+
+# ---- C20
+def _is_int(x):
+    return isinstance(x, int) and not isinstance(x, bool)
+
+
+def _is_num(x):
+    return isinstance(x, (int, float)) and not isinstance(x, bool)
+
+
+def valid_hint(h):
+    return type(h).__name__ in ("DirectTCPV1Hint", "TorTCPV1Hint") and isinstance(h.hostname, str) \
+        and _is_int(h.port) and _is_num(h.priority)
+
+
+def valid_any_hint(h):
+    if type(h).__name__ == "RelayV1Hint":
+        return all(valid_hint(x) for x in h.hints)
+    return valid_hint(h)
+
+
+def all_valid(seq):
+    return all(valid_hint(x) for x in seq)
+
+
+def all_valid_any(seq):
+    return all(valid_any_hint(x) for x in seq)
+
+
+def all_relays_valid(st):
+    return all(all_valid(r.hints) for r in st)
+
+
+def wellformed_tcp(hint):
+    return isinstance(hint, dict) and hint.get("type") in ("direct-tcp-v1", "tor-tcp-v1") \
+        and isinstance(hint.get("hostname"), str) and _is_int(hint.get("port")) \
+        and ("priority" not in hint or _is_num(hint["priority"]))
+
+
+def hint_matches(r, hint):
+    if r is None:
+        return True
+    want = {"DirectTCPV1Hint": "direct-tcp-v1", "TorTCPV1Hint": "tor-tcp-v1"}.get(type(r).__name__)
+    return want is not None and isinstance(hint, dict) and hint.get("type") == want and r.hostname == hint.get("hostname") \
+        and r.port == hint.get("port") and r.priority == hint.get("priority", 0.0)
+
+
+NATIVE.update({"valid_hint": valid_hint, "valid_any_hint": valid_any_hint, "all_valid": all_valid,
+               "all_valid_any": all_valid_any, "all_relays_valid": all_relays_valid,
+               "wellformed_tcp": wellformed_tcp, "hint_matches": hint_matches})
